@@ -6,6 +6,7 @@ Families (all enumerated completely, see DESIGN.md C01):
   everyk   k = 1..32 x |prefix| in {1,2,5}: pad.prefix.kmer.pad and reverse complements, truncated by one letter
   colls    ordered pairs (thorough: triples) of 12 short contigs, as list / tuple / generator / bare sequence
   layout   motifs embedded behind / before pads of 0..257 letters (position-keyed shortcuts)
+  long     occurrences straddling positions around 2^10 .. 2^16 (2^20) in long sequences
   histories every sequence of valid / failing calls in one thread (state kept between calls)
 Each case: 4 sequence types x {SetAccumulator, ArrayAccumulator (k<=8), default} on the real calc_signature,
 compared with refmodel.ref_signature (values, strict order, dtype).
@@ -51,6 +52,8 @@ def plan(tier, seed):
 		tasks.append(('t_layout', dict(padkind=kind)))
 	for ki in range(3):
 		tasks.append(('t_histories', dict(ki=ki, depth=3 if tier == 'quick' else 4)))
+	for part in range(4):
+		tasks.append(('t_long', dict(part=part, nparts=4, tier=tier)))
 	return tasks
 
 
@@ -225,6 +228,34 @@ def t_colls(triples):
 	return sh
 
 
+def t_long(part, nparts, tier):
+	"""Long sequences: one or two occurrences (forward / reverse, valid / with an invalid byte) placed so that prefix and k-mer straddle every
+	position p-1, p, p+1 around p = 2^10, 2^12, 2^13, 2^16 (thorough also 2^20) in an otherwise occurrence-free background of three kinds - a
+	search that works in blocks, or changes strategy above some length, loses or invents k-mers exactly there."""
+	sh = Shard()
+	specs = [(4, b'AT'), (11, b'ATGAC'), (16, b'ATGAC')]
+	ps = [1 << 10, 1 << 12, 1 << 13, 1 << 16] + ([1 << 20] if tier != 'quick' else [])
+	ci = 0
+	for k, prefix in specs:
+		km = R.ref_kmer((0x9E3779B97F4A7C15 >> 3) % 4 ** k, k)
+		fwd = prefix + km
+		motifs = [fwd, R.ref_revcomp(fwd), fwd.lower(), prefix + b'N' + km[1:], fwd + R.ref_revcomp(fwd)]
+		for bg in (b'G', b'c', b'N'):
+			for p in ps:
+				for m in motifs:
+					for off in range(-len(m) - 1, 2):
+						ci += 1
+						if ci % nparts != part:
+							continue
+						start = p + off
+						total = p + len(m) + 40
+						seq = bg * start + m + bg * (total - start - len(m))
+						check_case(sh, k, prefix, [seq], variants='light', stats=False)
+						sh.count('long_sequences')
+	sh.sample(dict(family='long', lengths=ps, specs=[[k, p.decode()] for k, p in specs]))
+	return sh
+
+
 def fixtures_reset():
 	from mc import fixtures
 	fixtures.reset_gambit_globals()
@@ -314,7 +345,7 @@ def t_layout(padkind):
 
 def finalize(agg, tier):
 	for c in ('cases_with_forward_occurrence', 'cases_with_reverse_occurrence', 'cases_with_dropped_occurrence',
-	          'cases_with_overlapping_occurrences', 'cases_where_concatenation_would_differ', 'valid_calls_after_a_failed_call'):
+	          'cases_with_overlapping_occurrences', 'cases_where_concatenation_would_differ', 'valid_calls_after_a_failed_call', 'long_sequences'):
 		agg.require(c, 100)
 
 
